@@ -10,10 +10,14 @@
      action  what the PluginMessageEvent subscriber does: "none", "allow" (SetForward(true)),
              "deny" (SetForward(false))
      shape   body shape: "empty", "one", "many", "invalid" (channel lists) / "empty", "one", "big"
+     overlap the message is followed by a second, different one of the same size while the
+             subscriber still handles the first one's event (play handlers: they do not pause
+             reading); both messages are observed and judged, each against its own body
    and its observation
      body       the message's data as sent
      regEvents  PlayerChannelRegisterEvents raised for the sender
-     pm         Data() of every PluginMessageEvent raised (sequence of byte sequences)
+     pm         Data() of every PluginMessageEvent raised for it (sequence of byte sequences; with
+                overlap: as read when the handler starts and again when it ends)
      fwd        data of every copy of the message that arrived at the other side
 
    Allowed(row) is the property:
@@ -41,7 +45,10 @@ Allowed(r) ==
     /\ \A i \in 1..Len(r.fwd) : r.fwd[i] = r.body
 
 (* ------------------------------------------------------------ the table rows *)
-Rows == {r \in [phase : Phases, kind : Kinds, action : Actions, shape : ListShapes \cup DataShapes] :
+Rows == {r \in [phase : Phases, kind : Kinds, action : Actions, shape : ListShapes \cup DataShapes,
+                 overlap : BOOLEAN] :
+            /\ (r.overlap => /\ r.phase \in {"clientPlay", "backendPlay"} /\ r.kind = "registered"
+                             /\ r.action \in {"none", "allow"} /\ r.shape \in {"one", "big"})
             /\ (r.kind \in {"register", "unregister"} => r.shape \in ListShapes /\ r.action = "none")
             /\ (r.kind \in {"registered", "unregistered"} => r.shape \in DataShapes)
             /\ (r.kind = "unregistered" => r.action = "none")}
